@@ -102,7 +102,7 @@ def c07(ctx):
     ctx.coverage["replayed_behaviours"] = len(behs)
     ctx.coverage["replayed_calls"] = nsteps
     # (P) real scale
-    lens = [0, 1, 2, 5, 1023, 1024, 1025, 2049, 5000] if ctx.quick else [0, 1, 2, 3, 5, 100, 1022, 1023, 1024, 1025, 2047, 2048, 2049, 4096, 5000, 8191, 8192, 8193, 20000]
+    lens = [0, 1, 2, 5, 1023, 1024, 1025, 2049, 5000, 20000] if ctx.quick else [0, 1, 2, 3, 5, 100, 1022, 1023, 1024, 1025, 2047, 2048, 2049, 4096, 5000, 8191, 8192, 8193, 20000]
     reps = 2 if ctx.quick else 6
     for blen in lens:
         for nlstyle in ("none", "dense", "edges", "few", "all"):
@@ -173,7 +173,14 @@ def worker_level(ctx, traces, metas):
                             return [b"ok"]
                         cfg = cdrv.make_cfg(keepalive=2)
                         segs = [stream[:cut], stream[cut:] + follower] if cut < len(stream) else [stream, follower]
+                        # on a fresh connection, or as the second request of a kept-alive one (the worker parked the
+                        # connection in between)
+                        warm = n % 2 == 1
+                        if warm:
+                            segs = [b"GET /warm HTTP/1.1\r\nHost: h\r\n\r\n"] + segs
                         r = cdrv.serve(kind, cfg, segs, app, eof_dispatch=True)
+                        if warm and seen and seen[0][0] == "/warm":
+                            del seen[0]
                         piece = got[0] if got else b""
                         want = len(body) if k is None else min(k, len(body))
                         ev = [{"e": "call", "op": "read", "n": -1 if k is None else k, "len": len(piece),
@@ -182,7 +189,7 @@ def worker_level(ctx, traces, metas):
                         ev.append({"e": "stop", "next_start": len(stream) if ok_next else -3, "expect_next": len(stream)})
                         traces.append({"blen": blen, "nls": nls, "ev": ev})
                         metas.append({"kind": "worker:" + kind, "blen": blen, "framing": framing, "prog": [("read", k)],
-                                      "early": early, "seen": seen[:4], "wire": r.wire[:80].decode("latin-1"), "escaped": r.escaped})
+                                      "early": early, "warm": warm, "seen": seen[:4], "wire": r.wire[:80].decode("latin-1"), "escaped": r.escaped})
                         n += 1
     ctx.coverage["worker_level_runs"] = n
 
